@@ -373,6 +373,27 @@ def rule_policy(fx, rep):
         ok = False
         rep.violation("C19-POLICY", f"C19-POLICY/{key}", msg, {"fn": ins.name, "file": ins.file, "line": line or ins.line})
 
+    # what is stored is what the caller handed in: nothing of the slot's present occupant may be merged into the new data
+    # unless that occupant was stored under the same key (the slot is shared by all keys with the same index)
+    for bb, j, s_ in ins.stmts():
+        rv = s_.get("rv")
+        if not (s_["k"] == "assign" and rv and rv["k"] == "ref" and rv.get("mut") and rv.get("pl", {}).get("l") == 3 and not rv["pl"].get("p")):
+            continue
+        refl = s_["lhs"]["l"]
+        for cb_, t_ in ins.calls():
+            if not any("pl" in a and a["pl"]["l"] == refl for a in t_["args"]):
+                continue
+            others = [ins.expr(a, expand_named=True, at=cb_) for a in t_["args"] if not ("pl" in a and a["pl"]["l"] == refl)]
+            from_slot = any(find_calls(o, "get_unchecked", "get_unchecked_mut", "Index>::index", "IndexMut>::index_mut", "slice::get", "slice::get_mut") or
+                            any(isinstance(x, tuple) and len(x) == 3 and x[0] == "field" and x[2] == "data" for x in walk(o)) for o in others)
+            if not from_slot:
+                continue
+            n += 1
+            same_key = any(pol is True and cmp_op(deep_strip(e)) and cmp_op(deep_strip(e))[0] == "Eq" and "key" in show(e) for (e, pol, w) in guard_conditions(ins, cb_, expand_named=True))
+            rep.obligation(same_key)
+            if not same_key:
+                bad("store/merged", f"TranspositionTable::insert changes the data it is about to store through `{norm(callee_name(t_) or '').split('::')[-1]}` with the slot's present occupant as input, without "
+                    "the occupant's key being equal to the key stored: a probe can then return data that was never stored under its key", t_.get("line"))
     empties = []
     for (bb, idx, val, line) in st:
         n += 1
@@ -641,6 +662,28 @@ def rule_clear(fx, rep):
         if not good:
             bad(f"resize/{fld}", f"the reallocating path of resize does not set `{fld}` to {show(want)}", rz)
     # PersistentState::reset / ucinewgame reach reset — checked under C12
+    # ... and resize records the size it was asked for on every path except the same-size shortcut: a path that rebuilds (or
+    # drops) the slot vector and returns without `self.size = size_mb` leaves a size on record that the table does not have,
+    # and the next request for that size is taken for "nothing to do"
+    size_w = {bb for bb, j, st in rz.stmts() if st["k"] == "assign" and st["lhs"]["l"] == 1 and
+              [p_.get("n") for p_ in st["lhs"].get("p", []) if isinstance(p_, dict)] == ["size"]}
+    guard_edges = []
+    for a in sorted(rz.live_blocks()):
+        for (tgt, e, pol, v) in switch_edge_conds(rz, a, expand_named=True):
+            co = cmp_op(deep_strip(e)) if isinstance(deep_strip(e), tuple) else None
+            if co and co[0] in ("Eq", "Ne") and pol is not None and ((co[0] == "Eq") == bool(pol)):
+                txt = show(co[1]) + " " + show(co[2])
+                if "self.size" in txt.replace("(*self)", "self").replace("*self", "self") or ".size" in txt:
+                    guard_edges.append((a, tgt))
+    if size_w and guard_edges:
+        n += 1
+        free = rz.reachable(0, removed_edges=guard_edges, removed_blocks=list(size_w))
+        leaks = [r_ for r_ in rz.return_blocks() if r_ in free]
+        good = not leaks
+        rep.obligation(good)
+        if not good:
+            bad("resize/size-field", "TranspositionTable::resize can return without recording the requested size on a path other than its same-size shortcut: the size on record then differs from the "
+                "table's real size and a later request for the recorded size does nothing (e.g. Hash N, Hash 0, Hash N leaves a table without slots)", rz)
     # the same-size guard of resize compares the request with `self.size`: wherever a table is built with a slot vector sized
     # for X, its `size` field must say X (a constructor that allocates for `size_mb` but records 0 makes the first `Hash 0` a
     # no-op: the table is neither emptied nor shrunk)
@@ -920,6 +963,8 @@ def rule_pref(fx, rep):
 TTF = "src/engine/transposition_table.rs"
 STT = "src/engine/search/transposition.rs"
 MUTANTS = [
+    {"name": "new data inherits the occupant's best move whatever its key (seed C19-11a)", "expect": "C19-POLICY/store/merged",
+     "edits": __import__("shared_mutants").edits_from_patch("seeded/C19-11a/patch.diff")},
     {"name": "the constructor allocates for size_mb but records size 0 (seed C19-10a)", "expect": "C19-CLEAR/new/size-field",
      "edits": __import__("shared_mutants").edits_from_patch("seeded/C19-10a/patch.diff")},
     {"name": "an entry without a best move always gives way to one that has a move (seed C19-7a)", "expect": "C19-PREF/age=eq",
